@@ -19,7 +19,7 @@
                  rtCounter.Reduce (minRt)                             6
                  overloadFactor (cpu2), atomic.LoadInt64(&flying)     7
      shed:  droppedRecently.Set(true); return ErrServiceOverloaded    8
-     admit: atomic.AddInt64(&flying, 1); return promise               9
+     grant: atomic.AddInt64(&flying, 1); return promise               9
    Pass(p, now)     (p = the thread whose Allow returned the promise)
      atomic.AddInt64(&flying, -1)                                     0
      avgFlying = avgFlying*beta + flying'*(1-beta)                    1
@@ -168,7 +168,7 @@ Fixpoint targets (calls : list call) : list nat :=
   end.
 
 (* observers *)
-Definition is_admitted (t : thread) : bool :=
+Definition is_granted (t : thread) : bool :=
   match tres t with Some RAdmit => true | _ => false end.
 Definition has_decremented (t : thread) : bool :=
   match target (tcall t) with Some _ => (1 <=? tpc t)%nat | None => false end.
